@@ -31,10 +31,23 @@ class Sim(object):
         self.m = model
         self.nsteps = 0
         self.used = set()
+        self._alt = None
 
-    def pick(self, state, tok, seeds, child):
+    def alt(self):
+        """the same model with the function-call helper analysed as part of the parser: what call_function() answers for a
+        NULL option is then a fact of the path, not an opaque verdict"""
+        if self._alt is None:
+            import copy
+            a = copy.copy(self.m)
+            a.ex = sym.Explorer(self.m.ctx.modules, inline=pm.callback_wrappers(self.m.ctx) | {'call_function'}, max_visits=2, max_paths=20000,
+                                mod_sets=self.m.mod_sets, once=('cfg_yylex',))
+            a._table = {}
+            self._alt = a
+        return self._alt
+
+    def pick(self, state, tok, seeds, child, model=None):
         """the unique outcome of (state, tok) under the seeds; child(pos) runs a nested frame"""
-        trs = self.m.transitions(state, tok, seeds)
+        trs = (model or self.m).transitions(state, tok, seeds)
         self.used.add((state, tok, tuple(sorted(seeds.items()))))
         groups = {}
         for tr in trs:
@@ -87,6 +100,10 @@ class Sim(object):
                     raise SimError('no residual path consistent with the nested result %d' % val)
             else:
                 sigs = set(sig for sig, _ in cand)
+                if len(sigs) != 1 and seeds.get('opt') == 0 and hasattr(self.m, 'ctx'):
+                    groups = self.pick(state, tok, seeds, None, model=self.alt())
+                    cand = list(groups.items())
+                    sigs = set(sig for sig, _ in cand)
                 if len(sigs) != 1:
                     raise sym.AnalysisIncomplete('state %d token %s: residual paths disagree under seeds %r: %s'
                                                  % (state, pm.TOKNAME.get(tok, tok), seeds, sorted(map(str, sigs))))
@@ -110,6 +127,12 @@ class Sim(object):
                     nv[k] = vars_.get(k, 0)
                 else:
                     raise sym.AnalysisIncomplete('skipper variable %s becomes %s' % (k, sym.render(v)))
+            # the parser's current option while an undeclared item is skipped: NULL from the unknown-name arm on (R12.7), for as
+            # long as no step assigns it (what a state does with a NULL option is what it does while skipping)
+            if 'opt' in vars_:
+                vo = tr.next.get('opt')
+                if vo is None or vo == ('p', 'opt') or vo == sym.C0:
+                    nv['opt'] = 0
             vars_ = nv
 
 
@@ -223,6 +246,9 @@ def run(c, chk):
 
     # ---- R12.1 -------------------------------------------------------------------
     sim = Sim(model)
+    entry_vars = {k: 0 for k in SKIP_VARS}
+    if nxo == sym.C0 or (nxo is not None and nxo != ('p', 'opt') and nxo[0] == 'call'):      # (the lookup result, NULL on this arm)
+        entry_vars['opt'] = 0
     items = gen_items(depth, width, full=thorough)
     nitems = 0
     failures = {}
@@ -231,9 +257,15 @@ def run(c, chk):
             nitems += 1
             try:
                 # follow with a known name token to detect over-consumption
-                kind, val, pos = sim.run(list(toks) + [T['STR']], entry, {k: 0 for k in SKIP_VARS}, False, level)
+                kind, val, pos = sim.run(list(toks) + [T['STR']], entry, dict(entry_vars), False, level)
             except SimError as e:
                 kind, val, pos = 'simerror', str(e), -1
+            except sym.AnalysisIncomplete:
+                # the simulation cannot go on from here (an outcome depends on more than tokens).  The states it has gone
+                # through so far are states of the skipper all the same: what they do to the configuration is decided
+                # before the analysis gives up
+                skipper_effects(c, chk, model, sorted(set(s_ for s_, _, _ in sim.used if s_ != 0)))
+                raise
             good = (kind == 'state0' and pos == len(toks))
             if not good:
                 if kind == 'state0':
@@ -252,7 +284,7 @@ def run(c, chk):
     npairs = 0
     for toks1, d1 in reps:
         try:
-            k1, vars1, pos1 = sim.run(list(toks1) + [T['STR']], entry, {k: 0 for k in SKIP_VARS}, False, 0)
+            k1, vars1, pos1 = sim.run(list(toks1) + [T['STR']], entry, dict(entry_vars), False, 0)
         except SimError:
             continue
         if k1 != 'state0' or pos1 != len(toks1):
@@ -363,25 +395,7 @@ def run(c, chk):
         chk.ok('R12.4', 'skipper recursion', 'the skipper does not recurse: nesting is tracked without using the C stack')
 
     # ---- R12.5 -------------------------------------------------------------------
-    bad = None
-    nt = 0
-    for s in skip_states:
-        for tok in sorted(T.values()):
-            for tr in model.transitions(s, tok):
-                nt += 1
-                for e in tr.events:
-                    if e.kind == 'store' and sym.object_of(e.addr)[0] != 'alloca':
-                        bad = (s, tok, e)
-                    if e.kind == 'call' and e.name in ('cfg_setopt', 'cfg_addval', 'cfg_free_value', 'cfg_opt_setcomment', 'cfg_addopt',
-                                                       'call_function', 'cfg_getopt'):
-                        if e.name == 'cfg_free_value' and e.args and sym.object_of(e.args[0])[0] == 'alloca':
-                            continue          # cleanup of a local aggregate on the error exit
-                        bad = (s, tok, e)
-    if bad:
-        s, tok, e = bad
-        chk.fail('R12.5', 'skipper-effect:%d' % s, c.where(e.ins), 'skipper state %d on token %s has an effect on the configuration: %r' % (s, pm.TOKNAME.get(tok, tok), e))
-    else:
-        chk.ok('R12.5', 'skipper states %s' % skip_states, '%d residual paths: no store to option/context state, no setter call' % nt)
+    skipper_effects(c, chk, model, skip_states)
 
     # R12.9: a well-formed item may carry comments between any two of its tokens: the skipper states are transparent to them
     if not isinstance(chk, report.SubCheck):
@@ -436,6 +450,29 @@ def state_examines_token(model, lbl, tokreg):
                 return False
             work.append(s)
     return True
+
+
+def skipper_effects(c, chk, model, skip_states):
+    """R12.5: no state the skipper goes through stores into the configuration or calls a setter"""
+    bad = None
+    nt = 0
+    for s in skip_states:
+        for tok in sorted(T.values()):
+            for tr in model.transitions(s, tok):
+                nt += 1
+                for e in tr.events:
+                    if e.kind == 'store' and sym.object_of(e.addr)[0] != 'alloca':
+                        bad = (s, tok, e)
+                    if e.kind == 'call' and e.name in ('cfg_setopt', 'cfg_addval', 'cfg_free_value', 'cfg_opt_setcomment', 'cfg_addopt',
+                                                       'call_function', 'cfg_getopt'):
+                        if e.name == 'cfg_free_value' and e.args and sym.object_of(e.args[0])[0] == 'alloca':
+                            continue          # cleanup of a local aggregate on the error exit
+                        bad = (s, tok, e)
+    if bad:
+        s, tok, e = bad
+        chk.fail('R12.5', 'skipper-effect:%d' % s, c.where(e.ins), 'skipper state %d on token %s has an effect on the configuration: %r' % (s, pm.TOKNAME.get(tok, tok), e))
+    else:
+        chk.ok('R12.5', 'skipper states %s' % skip_states, '%d residual paths: no store to option/context state, no setter call' % nt)
 
 
 def resolver_reports(c):
